@@ -7,7 +7,6 @@ Local Open Scope list_scope.
 
 Theorem C04_collect_after_history :
   forall ops : list op,
-         all_plain ops ->
          exists g : graph,
            run ops (Ok empty_graph) = Ok g /\
            (forall (k : string) (m : option string) (bs : list dblock),
@@ -17,7 +16,6 @@ Theorem C04_collect_after_history :
 Proof. exact HistoryText.collect_after_history. Qed.
 Check C04_collect_after_history :
   forall ops : list op,
-         all_plain ops ->
          exists g : graph,
            run ops (Ok empty_graph) = Ok g /\
            (forall (k : string) (m : option string) (bs : list dblock),
@@ -28,9 +26,7 @@ Print Assumptions C04_collect_after_history.
 
 Theorem C04_collect_after_import_history :
   forall notes ops : list op,
-         all_plain notes ->
          NoDup (map note_key notes) ->
-         all_plain ops ->
          exists g : graph,
            run ops (import notes) = Ok g /\
            (forall (k : string) (m : option string) (bs : list dblock),
@@ -45,9 +41,7 @@ Theorem C04_collect_after_import_history :
 Proof. exact HistoryText.collect_after_import_history. Qed.
 Check C04_collect_after_import_history :
   forall notes ops : list op,
-         all_plain notes ->
          NoDup (map note_key notes) ->
-         all_plain ops ->
          exists g : graph,
            run ops (import notes) = Ok g /\
            (forall (k : string) (m : option string) (bs : list dblock),
@@ -63,7 +57,6 @@ Print Assumptions C04_collect_after_import_history.
 
 Theorem C04_text_after_history :
   forall ops : list op,
-         all_plain ops ->
          exists g : graph,
            run ops (Ok empty_graph) = Ok g /\
            (forall (o : opts) (tables : list string) (k : string),
@@ -73,7 +66,6 @@ Theorem C04_text_after_history :
 Proof. exact HistoryText.text_after_history. Qed.
 Check C04_text_after_history :
   forall ops : list op,
-         all_plain ops ->
          exists g : graph,
            run ops (Ok empty_graph) = Ok g /\
            (forall (o : opts) (tables : list string) (k : string),
@@ -84,9 +76,7 @@ Print Assumptions C04_text_after_history.
 
 Theorem C04_text_after_import_history :
   forall notes ops : list op,
-         all_plain notes ->
          NoDup (map note_key notes) ->
-         all_plain ops ->
          exists g : graph,
            run ops (import notes) = Ok g /\
            (forall (o : opts) (tables : list string) (k : string),
@@ -98,9 +88,7 @@ Theorem C04_text_after_import_history :
 Proof. exact HistoryText.text_after_import_history. Qed.
 Check C04_text_after_import_history :
   forall notes ops : list op,
-         all_plain notes ->
          NoDup (map note_key notes) ->
-         all_plain ops ->
          exists g : graph,
            run ops (import notes) = Ok g /\
            (forall (o : opts) (tables : list string) (k : string),
@@ -113,12 +101,8 @@ Print Assumptions C04_text_after_import_history.
 
 Theorem C04_text_no_history :
   forall notes ops notes' ops' : list op,
-         all_plain notes ->
          NoDup (map note_key notes) ->
-         all_plain ops ->
-         all_plain notes' ->
          NoDup (map note_key notes') ->
-         all_plain ops' ->
          (forall k : string,
           over (last_op ops) (last_op (ops_of notes)) k =
           over (last_op ops') (last_op (ops_of notes')) k) ->
@@ -132,12 +116,8 @@ Theorem C04_text_no_history :
 Proof. exact HistoryText.text_no_history_runs. Qed.
 Check C04_text_no_history :
   forall notes ops notes' ops' : list op,
-         all_plain notes ->
          NoDup (map note_key notes) ->
-         all_plain ops ->
-         all_plain notes' ->
          NoDup (map note_key notes') ->
-         all_plain ops' ->
          (forall k : string,
           over (last_op ops) (last_op (ops_of notes)) k =
           over (last_op ops') (last_op (ops_of notes')) k) ->
@@ -152,7 +132,6 @@ Print Assumptions C04_text_no_history.
 
 Theorem C04_text_fresh_updates :
   forall ops fresh : list op,
-         all_plain ops ->
          Permutation (final_ops ops) fresh ->
          exists g g' : graph,
            run ops (Ok empty_graph) = Ok g /\
@@ -164,7 +143,6 @@ Theorem C04_text_fresh_updates :
 Proof. exact HistoryText.text_fresh_updates. Qed.
 Check C04_text_fresh_updates :
   forall ops fresh : list op,
-         all_plain ops ->
          Permutation (final_ops ops) fresh ->
          exists g g' : graph,
            run ops (Ok empty_graph) = Ok g /\
@@ -177,7 +155,6 @@ Print Assumptions C04_text_fresh_updates.
 
 Theorem C04_text_fresh_import :
   forall ops notes : list op,
-         all_plain ops ->
          Permutation (final_ops ops) (ops_of notes) ->
          exists g g' : graph,
            run ops (Ok empty_graph) = Ok g /\
@@ -189,7 +166,6 @@ Theorem C04_text_fresh_import :
 Proof. exact HistoryText.text_fresh_import. Qed.
 Check C04_text_fresh_import :
   forall ops notes : list op,
-         all_plain ops ->
          Permutation (final_ops ops) (ops_of notes) ->
          exists g g' : graph,
            run ops (Ok empty_graph) = Ok g /\
@@ -202,7 +178,6 @@ Print Assumptions C04_text_fresh_import.
 
 Theorem C04_title_after_history :
   forall ops : list op,
-         all_plain ops ->
          exists g : graph,
            run ops (Ok empty_graph) = Ok g /\
            (forall k : string,
@@ -215,7 +190,6 @@ Theorem C04_title_after_history :
 Proof. exact HistoryText.title_after_history. Qed.
 Check C04_title_after_history :
   forall ops : list op,
-         all_plain ops ->
          exists g : graph,
            run ops (Ok empty_graph) = Ok g /\
            (forall k : string,
@@ -230,13 +204,11 @@ Print Assumptions C04_title_after_history.
 Theorem C04_update_key_text :
   forall (g : graph) (f : spec) (key : string) (meta : option string) (bs : list dblock),
          text_inv g f ->
-         Forall (fun b : dblock => plain_items b = true) bs ->
          exists g' : graph, update_key g key meta bs = Ok g' /\ text_inv g' (upd f key (meta, bs)).
 Proof. exact HistoryText.update_key_text. Qed.
 Check C04_update_key_text :
   forall (g : graph) (f : spec) (key : string) (meta : option string) (bs : list dblock),
          text_inv g f ->
-         Forall (fun b : dblock => plain_items b = true) bs ->
          exists g' : graph, update_key g key meta bs = Ok g' /\ text_inv g' (upd f key (meta, bs)).
 Print Assumptions C04_update_key_text.
 
